@@ -154,6 +154,8 @@ pub struct Cfg {
     pub n_chans: usize,
     /// checkpoint file name (inside the directory given by `--ckpt-dir`)
     pub ckpt: Option<String>,
+    /// C06: a panicking thread drops the guards / handles it owns while unwinding
+    pub unwind: bool,
 }
 
 impl Default for Cfg {
@@ -174,6 +176,7 @@ impl Default for Cfg {
             n_notifies: 0,
             n_chans: 0,
             ckpt: None,
+            unwind: false,
         }
     }
 }
@@ -335,6 +338,7 @@ fn parse_cfg(s: &str) -> Option<Cfg> {
             "n" => c.n_notifies = n(v)?,
             "q" => c.n_chans = n(v)?,
             "ckpt" => c.ckpt = Some(v.to_string()),
+            "unwind" => c.unwind = n(v)? != 0,
             _ => return None,
         }
     }
